@@ -1,10 +1,20 @@
 #!/usr/bin/env python3
 """Run the registered quick check(s) against every seeded defect in /verif/seeded (applied to /repo's working tree,
-undone afterwards). usage: run_seeds.py [id ...] [--props C01,C02]  -> prints a table, writes seeded/RESULTS.json"""
+undone afterwards). usage: run_seeds.py [id ...] [--props C01,C02] [--scratch]  -> prints a table, writes seeded/RESULTS.json
+--scratch: apply the patch in a scratch worktree of /repo's HEAD (/tmp/seedrepo) and point the harness at it
+(VERIF_REPO), so that /repo itself stays untouched while a long run uses it."""
 import json, os, subprocess, sys, time
 VERIF = os.path.dirname(os.path.dirname(os.path.abspath(__file__)))
 ids = [a for a in sys.argv[1:] if not a.startswith('--')]
-REPO = os.environ.get('VERIF_REPO', '/repo')
+SCRATCH = '--scratch' in sys.argv
+REPO = '/repo'
+if SCRATCH:
+    REPO = '/tmp/seedrepo'
+    if not os.path.isdir(REPO):
+        subprocess.run(['git', '-C', '/repo', 'worktree', 'add', '--detach', REPO, 'HEAD'], check=True, capture_output=True)
+    head = subprocess.run(['git', '-C', '/repo', 'rev-parse', 'HEAD'], capture_output=True, text=True).stdout.strip()
+    subprocess.run(['git', '-C', REPO, 'checkout', '-q', '--detach', head], check=True)
+    subprocess.run(['git', '-C', REPO, 'checkout', '-q', '--', '.'], check=True)
 extra = [a.split('=')[1].split(',') for a in sys.argv[1:] if a.startswith('--props=')]
 seeds = sorted(d for d in os.listdir(os.path.join(VERIF, 'seeded')) if os.path.isdir(os.path.join(VERIF, 'seeded', d)))
 if ids:
@@ -26,7 +36,8 @@ for s in seeds:
     try:
         for p in props:
             t0 = time.time()
-            r = subprocess.run([os.path.join(VERIF, 'check'), p, '--tier', 'quick'], capture_output=True, text=True, cwd=VERIF)
+            env = dict(os.environ, VERIF_REPO=REPO) if SCRATCH else dict(os.environ)
+            r = subprocess.run([os.path.join(VERIF, 'check'), p, '--tier', 'quick'], capture_output=True, text=True, cwd=VERIF, env=env)
             viol = [l for l in r.stdout.splitlines() if l.startswith('VIOLATION')]
             fps = [l.strip() for l in r.stdout.splitlines() if l.strip().startswith('fingerprint:')]
             results.setdefault(s, {})[p] = dict(exit=r.returncode, violations=len(viol), first=fps[:2], wall=round(time.time() - t0))
